@@ -101,6 +101,8 @@ def variant_modules(rnd, quick):
         mods.append((n, open(os.path.join(env.VERIF, 'corpus', 'examples', n + '.wasm'), 'rb').read(), None))
     for named in ('all', 'some', 'dups', 'none'):
         mods.append(('manyf' + named, hostile.many_funcs(23, named).encode(), None))
+    # a dense switch (thousands of nested blocks): the code generator recurses per nesting level on whichever thread writes the file
+    mods.append(('denseswitch', hostile.dense_switch(3000 if quick else 6000).encode(), None))
     for k in range(3 if quick else 12):
         mods.append(('dseg%d' % k, dataseg_module(env.rng('c09-dseg', k))[0].encode(), ('dseg', k)))
     for k in range(3 if quick else 20):
